@@ -571,7 +571,7 @@ func c19Gen(tier string, rng *rand.Rand, emit func(string)) map[string]interface
 		fs, wn := c19StackFields(ds)
 		space := c19RecSpace(fs, 2, wn)
 		ml := 3
-		if len(space) <= 4 || (thorough && len(space) <= 6) {
+		if len(space) <= 4 || thorough {
 			ml = 4
 		}
 		counts["exh2"] += c19Lists(space, ml, func(body string) { emitD(ds, body, false) })
@@ -598,7 +598,7 @@ func c19Gen(tier string, rng *rand.Rand, emit func(string)) map[string]interface
 	// (4) random long lists (beyond the insertion-sort blocks of sort.SliceStable), random stacks
 	nRandom := 6000
 	if thorough {
-		nRandom = 30000
+		nRandom = 60000
 	}
 	lenHist := map[string]int{}
 	randRec := func(wn map[byte]bool, small bool) string {
